@@ -14,6 +14,7 @@ Nothing here imports or runs twisted.  Contents:
 from __future__ import annotations
 
 import ast
+import contextlib
 from collections import deque
 from typing import Callable, Dict, Iterable, List, Optional, Set, Tuple
 
@@ -36,6 +37,20 @@ def real_func(ctx, rel: str, qual: str):
         raise AnalysisError(f"anchor vanished: non-overload definition of {rel}:{qual}")
     ctx.functions.add(f"{rel}:{qual}")
     return cands[-1]
+
+
+@contextlib.contextmanager
+def group(ctx, name: str):
+    """Independent rule group: an unreadable shape (AnalysisError) or an analyser slip inside is
+    recorded on ctx.errors and the other groups still deliver their verdicts (exit 2 only when no
+    violation was established anywhere)."""
+    try:
+        with ctx.section(name):
+            yield
+    except AnalysisError:
+        raise
+    except Exception as e:  # noqa: BLE001 - never let one group's slip mask the others
+        ctx.errors.append(f"[{name}] analyser slip: {type(e).__name__}: {e}")
 
 
 def params(f) -> List[str]:
@@ -496,35 +511,53 @@ class RunShape:
         self.g = ctx.cfg(self.f, exception_is_all=False)
         self.q = Q + "Deferred._runCallbacks"
         g = self.g
-        # pop site: <X>.callbacks.pop(...) / .popleft() assigned to a local
+        # consumption sites of <X>.callbacks: pop()/popleft() [kind pop], `item = X.callbacks[k]` [peek],
+        # `for item in X.callbacks` [iter].  Which kind is acceptable is judged by C01's queue rules.
         self.pops: List[int] = []
+        self.pop_kind: Dict[int, str] = {}
         self.cur: Optional[str] = None
         self.item: Optional[str] = None
         self.pop_calls: Dict[int, ast.Call] = {}
+        is_pop = lambda c: isinstance(c.func, ast.Attribute) and c.func.attr in ("pop", "popleft") and attr_of(c.func.value, "callbacks")
         for n in g.nodes:
-            if n.kind != "stmt" or not g.reachable(n.id):
+            if not g.reachable(n.id) or n.ast is None:
                 continue
-            for c in calls_of(g, n.id, lambda c: isinstance(c.func, ast.Attribute) and c.func.attr in ("pop", "popleft")
-                              and attr_of(c.func.value, "callbacks")):
+            if n.kind == "stmt":
+                for c in calls_of(g, n.id, is_pop):
+                    self.pops.append(n.id)
+                    self.pop_kind[n.id] = "pop"
+                    self.pop_calls[n.id] = c
+                    self.cur = c.func.value.value.id
+                    tv = targets_values(n.ast)
+                    if tv and is_name(tv[0][0]) and tv[0][1] is c:
+                        self.item = tv[0][0].id
+                for t, v in targets_values(n.ast):
+                    if isinstance(t, ast.Name) and isinstance(v, ast.Subscript) and attr_of(v.value, "callbacks") and n.id not in self.pops:
+                        self.pops.append(n.id)
+                        self.pop_kind[n.id] = "peek"
+                        self.cur = self.cur or v.value.value.id
+                        self.item = self.item or t.id
+            elif n.kind == "for" and attr_of(n.ast.iter, "callbacks") and isinstance(n.ast.target, ast.Name):
                 self.pops.append(n.id)
-                self.pop_calls[n.id] = c
-                self.cur = c.func.value.value.id
-                tv = targets_values(n.ast)
-                if tv and is_name(tv[0][0]):
-                    self.item = tv[0][0].id
-        ctx.need(self.pops, "consumption of <d>.callbacks (pop) in Deferred._runCallbacks")
-        ctx.need(self.item, "local receiving the popped callback pair in Deferred._runCallbacks")
-        # unpack
-        self.unpacks: List[Tuple[int, int]] = []
+                self.pop_kind[n.id] = "iter"
+                self.cur = self.cur or n.ast.iter.value.id
+                self.item = self.item or n.ast.target.id
+        ctx.need(self.pops, "any consumption of <d>.callbacks in Deferred._runCallbacks")
+        # unpack: `cb, a, kw = <item>[k]` (or directly from the pop call); k constant, a conditional
+        # expression or the failure test itself (judged by the slot-selection rule)
+        self.unpacks: List[Tuple[int, object]] = []
         self.cb = self.a = self.kw = None
         for n in g.nodes:
             if n.kind == "stmt" and g.reachable(n.id) and isinstance(n.ast, ast.Assign) and len(n.ast.targets) == 1 \
                     and isinstance(n.ast.targets[0], ast.Tuple) and len(n.ast.targets[0].elts) == 3 \
-                    and isinstance(n.ast.value, ast.Subscript) and is_name(n.ast.value.value, self.item):
+                    and isinstance(n.ast.value, ast.Subscript):
+                base = n.ast.value.value
+                if not ((self.item and is_name(base, self.item)) or (isinstance(base, ast.Call) and is_pop(base))):
+                    continue
                 sl = n.ast.value.slice
                 k = const_int(sl)
-                if k is None and isinstance(sl, ast.IfExp) and const_int(sl.body) is not None and const_int(sl.orelse) is not None:
-                    k = sl      # `item[1 if <failure test> else 0]`: judged by the slot-selection rule
+                if k is None and isinstance(sl, (ast.IfExp, ast.Call, ast.UnaryOp, ast.Compare)):
+                    k = sl
                 names = [e.id if isinstance(e, ast.Name) else None for e in n.ast.targets[0].elts]
                 if k is None or None in names:
                     continue
@@ -533,7 +566,7 @@ class RunShape:
         ctx.need(self.unpacks, "unpacking `callback, args, kwargs = item[k]` in Deferred._runCallbacks")
         self.callouts: List[int] = call_nodes(g, lambda c: is_name(c.func, self.cb))
         ctx.need(self.callouts, "the user callback call-out in Deferred._runCallbacks")
-        # chain stack
+        # chain stack (optional: its absence is a finding of C02, not an unreadable shape)
         self.chain: Optional[str] = None
         self.binds: List[int] = []
         self.bind_index: Dict[int, Optional[int]] = {}
@@ -544,7 +577,11 @@ class RunShape:
                         self.chain = v.value.id
                         self.binds.append(n.id)
                         self.bind_index[n.id] = const_int(v.slice)
-        ctx.need(self.binds, "binding of the current Deferred from the chain stack in Deferred._runCallbacks")
+                    elif is_name(t, self.cur) and isinstance(v, ast.Call) and isinstance(v.func, ast.Attribute) and v.func.attr == "pop" \
+                            and isinstance(v.func.value, ast.Name):
+                        self.chain = v.func.value.id
+                        self.binds.append(n.id)
+                        self.bind_index[n.id] = -1 if (not v.args or const_int(v.args[0]) == -1) else const_int(v.args[0])
         # CONTINUE tests
         self.cont_tests: List[int] = [n.id for n in g.nodes if n.kind == "test" and g.reachable(n.id) and self._cont_fact(n.ast, True) is not None]
         # chainee: local bound from <a>[0]
@@ -845,6 +882,37 @@ def _walk_with_lambdas(f) -> Iterable[ast.AST]:
 # _inlineCallbacks: finite-state abstract interpretation
 # ---------------------------------------------------------------------------------------------
 
+REG_METHODS = ("addBoth", "addCallback", "addErrback", "addCallbacks")
+_ADDCALLBACKS_SIG = ("callback", "errback", "callbackArgs", "callbackKeywords", "errbackArgs", "errbackKeywords")
+
+
+def routes_of(c: ast.Call) -> List[Tuple[str, Optional[ast.AST], Optional[List[ast.AST]]]]:
+    """What a registration call does with a success ("ok") and with a failure ("err"):
+    (outcome, callable expression | None = passes through unchanged, extra positional args | None = unreadable)."""
+    m = c.func.attr
+    kws = {k.arg: k.value for k in c.keywords if k.arg}
+    if m in ("addBoth", "addCallback", "addErrback"):
+        first = "errback" if m == "addErrback" else "callback"
+        callee = c.args[0] if c.args else kws.get(first)
+        extra = list(c.args[1:]) if c.args else []
+        if any(isinstance(a, ast.Starred) for a in extra):
+            extra = None
+        r_ok = ("ok", callee, extra) if m != "addErrback" else ("ok", None, [])
+        r_err = ("err", callee, extra) if m != "addCallback" else ("err", None, [])
+        return [r_ok, r_err]
+    b = dict(zip(_ADDCALLBACKS_SIG, c.args))
+    b.update(kws)
+
+    def tup(e):
+        if e is None:
+            return []
+        return list(e.elts) if isinstance(e, (ast.Tuple, ast.List)) and not any(isinstance(x, ast.Starred) for x in e.elts) else None
+    eb = b.get("errback")
+    if eb is not None and is_const(eb, None):
+        eb = None
+    return [("ok", b.get("callback"), tup(b.get("callbackArgs"))), ("err", eb, tup(b.get("errbackArgs")))]
+
+
 class ICModel:
     """Collecting semantics of ``_inlineCallbacks`` over the product state
 
@@ -877,31 +945,46 @@ class ICModel:
                 for t, v in targets_values(n.ast):
                     if isinstance(t, ast.Name) and isinstance(v, ast.List) and v.elts and all(isinstance(e, ast.Constant) for e in v.elts):
                         self.cells.setdefault(t.id, []).append(n.id)
-        # registration: a call passing a module-level function and a cell list
+        # registrations: EVERY <x>.addBoth / addCallback / addErrback / addCallbacks(...) call.  Each yields one
+        # Route per outcome: (outcome, callable expression or None for pass-through, extra positional args or None).
         self.regs: List[int] = []
         self.reg_calls: Dict[int, ast.Call] = {}
-        self.W: Optional[str] = None
-        self.helper_name: Optional[str] = None
+        self.routes: Dict[int, List[Tuple[str, Optional[ast.AST], Optional[List[ast.AST]]]]] = {}
         for n in g.nodes:
             if n.kind not in ("stmt", "test") or not g.reachable(n.id):
                 continue
-            for c in calls_of(g, n.id, lambda c: True):
-                fnames = [a.id for a in c.args if isinstance(a, ast.Name) and isinstance(mod.find(a.id), ast.FunctionDef)]
-                wnames = [a.id for a in c.args if isinstance(a, ast.Name) and a.id in self.cells]
-                if fnames and wnames and isinstance(c.func, ast.Attribute):
-                    self.regs.append(n.id)
-                    self.reg_calls[n.id] = c
-                    self.W = wnames[0]
-                    self.helper_name = fnames[0]
-        ctx.need(self.regs, "registration `<d>.addBoth(<helper>, <waiting>, ...)` in _inlineCallbacks")
-        self.helper = ctx.func(DEFER, self.helper_name)
+            for c in calls_of(g, n.id, lambda c: isinstance(c.func, ast.Attribute) and c.func.attr in REG_METHODS):
+                if n.id in self.reg_calls:
+                    continue
+                self.regs.append(n.id)
+                self.reg_calls[n.id] = c
+                self.routes[n.id] = routes_of(c)
+        # the cell list W: the one handed to a registered callable, else the first one
+        self.W: Optional[str] = None
+        for n in self.regs:
+            for _, callee, extra in self.routes[n]:
+                for a in extra or []:
+                    if isinstance(a, ast.Name) and a.id in self.cells and self.W is None:
+                        self.W = a.id
+        if self.W is None and self.cells:
+            self.W = sorted(self.cells)[0]
+        # helpers: registered module-level functions that receive W; name -> (def, index of the W parameter)
+        self.helpers: Dict[str, Tuple[ast.AST, int]] = {}
+        for n in self.regs:
+            for _, callee, extra in self.routes[n]:
+                if isinstance(callee, ast.Name) and isinstance(mod.find(callee.id), (ast.FunctionDef, ast.AsyncFunctionDef)) and extra is not None:
+                    ks = [i for i, a in enumerate(extra) if self.W and is_name(a, self.W)]
+                    if ks:
+                        self.helpers.setdefault(callee.id, (mod.find(callee.id), ks[0] + 1))
+        self.helper_name: Optional[str] = sorted(self.helpers)[0] if self.helpers else None
+        self.helper = self.helpers[self.helper_name][0] if self.helper_name else None
         W = self.W
         # fire sites: <status>.deferred.callback/errback(...)
         self.fires: List[int] = call_nodes(g, self.is_fire)
         # resume sites: the generator is advanced
         self.resumes: List[int] = g.find(self._mentions_resume, kinds=("stmt", "test"))
         ctx.need(self.resumes, "generator resumption (gen.send / throwExceptionIntoGenerator) in _inlineCallbacks")
-        self.cell_tests: List[int] = [n.id for n in g.nodes if n.kind == "test" and g.reachable(n.id) and sub0(n.ast, W, 0)]
+        self.cell_tests: List[int] = [n.id for n in g.nodes if n.kind == "test" and g.reachable(n.id) and W and sub0(n.ast, W, 0)]
         self.states: Dict[int, Set[Tuple]] = {}
         self._run()
 
@@ -919,7 +1002,7 @@ class ICModel:
     def cell_store(self, st) -> Optional[object]:
         """constant stored into W[0] by this statement ('?' when not a constant), else None"""
         for t, v in targets_values(st):
-            if sub0(t, self.W, 0):
+            if self.W and sub0(t, self.W, 0):
                 return v.value if isinstance(v, ast.Constant) and isinstance(v.value, bool) else "?"
         return None
 
@@ -930,7 +1013,7 @@ class ICModel:
         out = set(S)
         exc = set(S)
         if n.kind == "stmt":
-            if nid in self.cells.get(self.W, []):
+            if self.W and nid in self.cells.get(self.W, []):
                 v0 = None
                 for t, v in targets_values(n.ast):
                     if is_name(t, self.W):
